@@ -37,7 +37,7 @@ def main(argv):
         for pos, m in enumerate(idx):
             if shard and pos % int(shard.split("/")[1]) != int(shard.split("/")[0]):
                 continue
-            if flt and flt not in m["patch"] and flt not in m.get("property", ""):
+            if flt and not any(f in m["patch"] or f in m.get("property", "") for f in flt.split(",")):
                 continue
             sh(f"git -C {SCRATCH} checkout -q -- . && git -C {SCRATCH} clean -fdq")
             src = m["patch"]
